@@ -339,7 +339,7 @@ class AsyncBaseClient:
     ) -> Optional[Dict[str, Any]]:
         try:
             message_dict = json.loads(message)
-        except json.JSONDecodeError as exc:
+        except ValueError as exc:
             raise GraphQLClientInvalidMessageFormat(message=message) from exc
 
         type_ = message_dict.get("type")
